@@ -183,8 +183,8 @@ Definition tb_eqb (a b : tb) : bool :=
    the correspondence run checks exactly this, with tbutils observed before anything else
    has filled the cache. *)
 Record live_frame := mkLive { lv_file : str; lv_lineno : N; lv_name : str; lv_raw : str }.
-(* the exception: __module__, __qualname__, __name__ of its type; str(value) (None if
+(* the exception: __module__ (None if it is not a str), __qualname__, __name__ of its type; str(value) (None if
    __str__ raised); and the text the interpreter shows for the exception alone
    (traceback.TracebackException(...).format_exception_only(), final newline removed) *)
-Record live_exc := mkExc { ex_module : str; ex_qualname : str; ex_name : str;
+Record live_exc := mkExc { ex_module : option str; ex_qualname : str; ex_name : str;
                            ex_str : option str; ex_shown : str }.
